@@ -14,8 +14,8 @@ import (
 func init() {
 	Register(&Prop{ID: "C49", Title: "Tokens move out of an account only with that account's authorization",
 		Technique: "signer-annotation table read from the protobuf sources; abstract interpretation (go/ssa) of the debit paths (the debited account is the annotated signer field; the v2 send handler hands the message signer to every application callback; the ICS-20 v2 callback requires payload sender == signer) and of the credit paths (bank effect tables: credits go to the packet's receiver, refunds to the packet's sender; the relayer argument reaches no bank call)",
-		LevelText: "Decides that MsgTransfer is signed by its sender field and that the account debited by the v1 path is that field's address; that on the v2 path the transfer module builds MsgSendPacket with the signer set to the packet data's sender, the v2 send handler passes the address of the message signer to every OnSendPacket callback, and ICS-20's callback returns without error only if the payload's sender equals that signer and debits exactly that signer; that on receive the only credited account is the packet's receiver and on refund the packet's sender (bank effect tables shared with C30/C32); and that the relayer argument of the v1 and v2 callbacks never occurs in an argument of a bank call. Transfer authorizations are C36; interchain accounts and GMP are C37–C39; forwarding is C43.",
-		Note:      "proto sources + go/types + go/ssa", Design: "§5 C49", Run: runC49})
+		LevelText: "Decides that MsgTransfer is signed by its sender field and that the account debited by the v1 path is that field's address; that on the v2 path the transfer module builds MsgSendPacket with the signer set to the packet data's sender, the v2 send handler passes the address of the message signer to every OnSendPacket callback, and ICS-20's callback returns without error only if the payload's sender equals that signer and debits exactly that signer; that on receive the only credited account is the packet's receiver and on refund the packet's sender (bank effect tables shared with C30/C32); and that the relayer argument of the v1 and v2 callbacks never occurs in an argument of a bank call. Transfer authorizations are C36 (its rules are re-run by this check: a grant that can be exceeded moves tokens without authorization); interchain accounts and GMP are C37–C39; forwarding is C43.",
+		Note:      "proto sources + go/types + go/ssa", Design: "§5 C49", Run: runC49, Deps: []string{"C36"}})
 }
 
 var (
